@@ -5,7 +5,7 @@ import os
 import sys
 
 MODULES = {
-    "C01": "c_ip", "C02": "c_ip", "C03": "c_ip", "C04": "c_ip", "C05": "c_ip", "C17": "c_ip", "C18": "c_juniper", "C06": "c_text", "C07": "c_secrets", "C08": "c_secrets", "C09": "c_secrets", "C10": "c_words", "C11": "c_asnum", "C12": "c_pipe", "C14": "c_pipe", "C15": "c_pipe", "C16": "c_files", "C19": "c_cli",
+    "C01": "c_ip", "C02": "c_ip", "C03": "c_ip", "C04": "c_ip", "C05": "c_ip", "C17": "c_ip", "C18": "c_juniper", "C06": "c_text", "C07": "c_secrets", "C08": "c_secrets", "C09": "c_secrets", "C10": "c_words", "C11": "c_asnum", "C12": "c_pipe", "C13": "c_process", "C14": "c_pipe", "C15": "c_pipe", "C16": "c_files", "C19": "c_cli",
 }
 
 
